@@ -24,6 +24,10 @@ def _records(w, name, flushed_only=False):
     return recs
 
 
+import re as _re
+_NUM = _re.compile(r"^-?[0-9]+$")
+
+
 def _toks(rec):
     """tokens of one print record"""
     if not (isinstance(rec, tuple) and rec and rec[0] == "print"):
@@ -75,7 +79,7 @@ def parse_log(w):
         for rec in _records(w, name):
             t = _toks(rec)
             if t and isinstance(t[0], str) and t[0].endswith(":"):
-                dst[t[0][:-1]] = t[1]
+                dst[t[0][:-1]] = int(t[1]) if isinstance(t[1], str) and _NUM.match(t[1]) else t[1]   # text lines in the native replay
     wires["__io__"] = io
     eqs, directives = [], []
     for rec in _records(w, "pysnark_eqs"):
@@ -147,7 +151,7 @@ class _Qap(_Backend):
         real_split = qs.qapsplit
 
         def watched_split():
-            self._split["buffered_eq_records"] = len([r for f in w.open_files if f.name == "pysnark_eqs" and not f.closed for r in f.buffer])
+            self._split["buffered_eq_records"] = w.unflushed("pysnark_eqs")
             self._split["disk_eq_lines"] = len(w.read_lines("pysnark_eqs"))
             return real_split()
         qs.qapsplit = watched_split
@@ -312,3 +316,28 @@ def prog():
         d["V.schedule_lists_every_call"] = len(fl) == len(fns)
         d["V.calls_share_equation_file"] = len(sq) == 2 and sq[0][2:] == sq[1][2:]
         return d
+
+
+def _qap_replay(self, ob, cfg):
+    """Replays a refuted C12 obligation: CPython runs the same client program on the real runtime with the real
+    qaptools backend (PYSNARK_BACKEND=qaptools, external executables failing) in a scratch directory, and the failed
+    clause is re-evaluated on the text files it wrote."""
+    import json, os, subprocess, tempfile, shutil
+    from pyvc.replay import REPO, ROOT
+    tmp = tempfile.mkdtemp(prefix="pyvc_qap_")
+    try:
+        req = dict(root=ROOT, repo=REPO, function=self.name, cfg=cfg, clause=ob["name"], model=ob.get("model") or {})
+        json.dump(req, open(os.path.join(tmp, "req.json"), "w"), default=str)
+        from .selection_c import make_stub_env
+        stubs, env = make_stub_env(tmp)            # a `qapgen` on PATH (it fails when run): the backend only loads if one is found
+        env.update(PYSNARK_BACKEND="qaptools", PYTHONHASHSEED="0")
+        p = subprocess.run(["python3-vt", os.path.join(ROOT, "pyvc", "native_qap.py"), os.path.join(tmp, "req.json"), os.path.join(tmp, "out.json")],
+                           cwd=tmp, env=env, stdout=subprocess.PIPE, stderr=subprocess.STDOUT, timeout=300)
+        if not os.path.exists(os.path.join(tmp, "out.json")):
+            return dict(confirmed=False, replay_error=p.stdout.decode(errors="replace")[-1500:])
+        return json.load(open(os.path.join(tmp, "out.json")))
+    finally:
+        shutil.rmtree(tmp, ignore_errors=True)
+
+
+_Qap.native_replay = _qap_replay
